@@ -21,11 +21,11 @@ from .. import fs, locref, witness
 LEVEL = 'model_checking'
 
 KINDS = ('code', 'blank', 'mark', 'markflag', 'line', 'linefile', 'spliced', 'comment2', 'linecomment', 'invoc3',
-         'define2', 'pragma', 'splicefirst')
+         'define2', 'pragma', 'splicefirst', 'linecomment2', 'stringsplice', 'dotsplice')
 DIRECTIVES = ('mark', 'markflag', 'line', 'linefile')
 NS = (10, 1, 2147483647)
 FS = ('a%s.c', 'b%s.h')
-PRELUDE = b'#define M(a,b,c) a b c'
+PRELUDE = b'#define M(a,b,c) a b c\n#define Q(x) #x'
 WBATCH = 40
 REASK = 4
 WTIMEOUT = 120
@@ -48,6 +48,9 @@ TEMPLATES = (
     ('parse/in-invocation', ('int x%d = M(,', ';', ',);'), 1, 'inside'),
     ('sem/in-invocation', ('int x%d = M(1 +,', 'undeclared_id%d', ', + 2);'), 1, 'inside'),
     ('dir/in-define', ('#define E%d(a, \\', ' +) 1'), 1, 'inside'),
+    # the reporting token is the string produced by the # operator (its location is that of the invocation)
+    ('parse/stringized', ('int Q(x%d);',), 0, 'base'),
+    ('parse/stringized-in-invocation', ('int Q(x%d +', 'y', ');'), 2, 'inside'),
     # lexical errors detected at the end of the line (the offending token is the unterminated literal)
     ('unterminated-string', ('char *x%d = "abc',), 0, 'eol'),
     ('unterminated-charconst', ("int x%d = 'a",), 0, 'eol'),
@@ -85,6 +88,12 @@ def kind_lines(kind, pos, n, f, uid):
         return ['#define D%s 1 \\' % pos, '+ 2'], ['define-open', 'define-cont']
     if kind == 'pragma':
         return ['#pragma x'], ['pragma']
+    if kind == 'linecomment2':      # a // comment continued by a backslash-newline: the second physical line belongs to the comment
+        return ['int a%s; // c \\' % pos, 'still the comment'], ['linecomment-open', 'linecomment-cont']
+    if kind == 'stringsplice':      # a string literal continued by a backslash-newline
+        return ['char *a%s = "x\\' % pos, 'y";'], ['string-open', 'string-cont']
+    if kind == 'dotsplice':         # the scanner's look-ahead behind '..' crosses a backslash-newline
+        return ['char *a%s = Q(..\\' % pos, ');'], ['dots-open', 'dots-cont']
     if kind == 'splicefirst':
         return ['\\', 'int a%s;' % pos], ['splice-first', 'splice-cont']
     raise ValueError(kind)
@@ -94,8 +103,8 @@ def build(seq, rot, tname, uid=0, tag=''):
     """Program text for the sequence of kinds `seq`, parameter rotation `rot`, violation template `tname`.
     Returns (text bytes, index of the physical line carrying the reporting token, labels per physical line).
     `tag` is inserted into the file names (used to tell programs apart in a witness batch)."""
-    lines = [PRELUDE.decode()]
-    labels = ['prelude']
+    lines = PRELUDE.decode().split('\n')
+    labels = ['prelude'] * len(lines)
     j = 0
     for pos, k in enumerate(seq):
         n = f = None
